@@ -346,13 +346,49 @@ impl Number {
 }
 
 impl Eq for Number {}
+impl Number {
+    /// The value as an arbitrary-precision rational: exact for every
+    /// representation, None for NaN and the infinities.
+    fn to_big_rational(&self) -> Option<BigRational> {
+        match self {
+            Number::Fixnum(num) => Some(BigRational::from_integer(BigInt::from(*num))),
+            Number::BigInt(num) => Some(BigRational::from_integer((**num).clone())),
+            Number::Float(num) => BigRational::from_float(*num),
+            Number::Rational(num) => Some(BigRational::new_raw(
+                BigInt::from(*num.numer()),
+                BigInt::from(*num.denom()),
+            )),
+        }
+    }
+
+    /// Order an exact number against a float by their mathematical values.
+    /// Converting the exact side to f64 instead rounds it, which makes
+    /// 2^53 + 1 equal to 2^53 as a float and 1/3 equal to its nearest double.
+    fn cmp_with_float(&self, float: f64) -> Option<Ordering> {
+        match BigRational::from_float(float) {
+            Some(float) => self.to_big_rational().map(|exact| exact.cmp(&float)),
+            None if float.is_nan() => None,
+            None if float > 0.0 => Some(Ordering::Less),
+            None => Some(Ordering::Greater),
+        }
+    }
+
+    /// Order two exact numbers by their mathematical values.
+    fn cmp_exact(&self, rhs: &Number) -> Option<Ordering> {
+        match (self.to_big_rational(), rhs.to_big_rational()) {
+            (Some(lhs), Some(rhs)) => Some(lhs.cmp(&rhs)),
+            _ => None,
+        }
+    }
+}
+
 impl PartialEq for Number {
     fn eq(&self, rhs: &Self) -> bool {
         match self {
             Number::Fixnum(lhs) => match rhs {
                 Number::Fixnum(rhs) => lhs == rhs,
                 Number::BigInt(rhs) => BigInt::from(*lhs) == **rhs,
-                Number::Float(rhs) => *lhs as f64 == *rhs,
+                Number::Float(rhs) => self.cmp_with_float(*rhs) == Some(Ordering::Equal),
                 Number::Rational(rhs) => {
                     if lhs.to_i32().is_some() {
                         Rational32::from_integer(*lhs as i32) == *rhs
@@ -364,20 +400,17 @@ impl PartialEq for Number {
             Number::BigInt(lhs) => match rhs {
                 Number::Fixnum(rhs) => **lhs == BigInt::from(*rhs),
                 Number::BigInt(rhs) => lhs == rhs,
-                Number::Float(rhs) => lhs.to_f64().unwrap() == *rhs,
+                Number::Float(rhs) => self.cmp_with_float(*rhs) == Some(Ordering::Equal),
                 Number::Rational(rhs) => match lhs.to_i32() {
                     Some(lhs) => Rational32::from_integer(lhs) == *rhs,
                     None => false,
                 },
             },
             Number::Float(lhs) => match rhs {
-                Number::Fixnum(rhs) => *lhs == *rhs as f64,
+                Number::Fixnum(_) => rhs.cmp_with_float(*lhs) == Some(Ordering::Equal),
                 Number::Float(rhs) => lhs == rhs,
-                Number::BigInt(rhs) => *lhs == rhs.to_f64().unwrap(),
-                Number::Rational(rhs) => match rhs.to_f64() {
-                    Some(rhs) => *lhs == rhs,
-                    None => false,
-                },
+                Number::BigInt(_) => rhs.cmp_with_float(*lhs) == Some(Ordering::Equal),
+                Number::Rational(_) => rhs.cmp_with_float(*lhs) == Some(Ordering::Equal),
             },
             Number::Rational(lhs) => match rhs {
                 Number::Fixnum(rhs) => {
@@ -387,10 +420,7 @@ impl PartialEq for Number {
                         false
                     }
                 }
-                Number::Float(rhs) => match lhs.to_f64() {
-                    Some(lhs) => lhs == *rhs,
-                    None => false,
-                },
+                Number::Float(rhs) => self.cmp_with_float(*rhs) == Some(Ordering::Equal),
                 Number::BigInt(rhs) => match rhs.to_i32() {
                     Some(rhs) => *lhs == Rational32::from_integer(rhs),
                     None => false,
@@ -403,46 +433,47 @@ impl PartialEq for Number {
 
 impl PartialOrd for Number {
     fn partial_cmp(&self, rhs: &Self) -> Option<Ordering> {
+        let other = rhs;
         match self {
             Number::Fixnum(lhs) => match rhs {
                 Number::Fixnum(rhs) => lhs.partial_cmp(rhs),
                 Number::BigInt(rhs) => BigInt::from(*lhs).partial_cmp(&**rhs),
-                Number::Float(rhs) => (*lhs as f64).partial_cmp(rhs),
+                Number::Float(rhs) => self.cmp_with_float(*rhs),
                 Number::Rational(rhs) => {
                     if lhs.to_i32().is_some() {
                         Rational32::from_integer(*lhs as i32).partial_cmp(rhs)
                     } else {
-                        Some(Ordering::Greater)
+                        self.cmp_exact(other)
                     }
                 }
             },
             Number::BigInt(lhs) => match rhs {
                 Number::Fixnum(rhs) => (**lhs).partial_cmp(&BigInt::from(*rhs)),
                 Number::BigInt(rhs) => (**lhs).partial_cmp(&**rhs),
-                Number::Float(rhs) => (**lhs).to_f64().unwrap().partial_cmp(rhs),
+                Number::Float(rhs) => self.cmp_with_float(*rhs),
                 Number::Rational(rhs) => match lhs.to_i32() {
                     Some(lhs) => Rational32::from_integer(lhs).partial_cmp(rhs),
-                    None => Some(Ordering::Greater),
+                    None => self.cmp_exact(other),
                 },
             },
             Number::Float(lhs) => match rhs {
-                Number::Fixnum(rhs) => lhs.partial_cmp(&(*rhs as f64)),
+                Number::Fixnum(_) => rhs.cmp_with_float(*lhs).map(Ordering::reverse),
                 Number::Float(rhs) => lhs.partial_cmp(rhs),
-                Number::BigInt(rhs) => lhs.partial_cmp(&(**rhs).to_f64().unwrap()),
-                Number::Rational(rhs) => lhs.partial_cmp(&rhs.to_f64().unwrap()),
+                Number::BigInt(_) => rhs.cmp_with_float(*lhs).map(Ordering::reverse),
+                Number::Rational(_) => rhs.cmp_with_float(*lhs).map(Ordering::reverse),
             },
             Number::Rational(lhs) => match rhs {
                 Number::Fixnum(rhs) => {
                     if rhs.to_i32().is_some() {
                         lhs.partial_cmp(&Rational32::from_integer(*rhs as i32))
                     } else {
-                        Some(Ordering::Less)
+                        self.cmp_exact(other)
                     }
                 }
-                Number::Float(rhs) => lhs.to_f64().unwrap().partial_cmp(rhs),
+                Number::Float(rhs) => self.cmp_with_float(*rhs),
                 Number::BigInt(rhs) => match rhs.to_i32() {
                     Some(rhs) => lhs.partial_cmp(&Rational32::from_integer(rhs)),
-                    None => Some(Ordering::Less),
+                    None => self.cmp_exact(other),
                 },
                 Number::Rational(rhs) => lhs.partial_cmp(rhs),
             },
